@@ -172,6 +172,16 @@ def chains(rich=False, nested=True, three=True):
         pt, src = build_pkg(kind, [("I", f"{t4}.q"), ("I", f"{j4}.pt")])
         producers.append((pt, f"SelectMany(SelectMany(ds, lambda {e}: {e}.jets), lambda {j4}: Select({j4}.tr, lambda {t4}: {src}))"))
 
+    # a stage whose result is First(<sequence of packages>): the later stage's projection has to be moved past
+    # the First (subscript and attribute spelling) before the package can be compiled away
+    for kind in kinds:
+        j5 = nm.fresh("j")
+        for jf in jet_fields(j5)[:1] + [("Jet", j5)]:
+            pt, src = build_pkg(kind, [jf, F[0]])
+            producers.append((pt, f"Select(ds, lambda {e}: First(Select({e}.jets, lambda {j5}: {src})))"))
+        pt, src = build_pkg(kind, [("I", f"{j5}.pt"), ("T", f"{j5}.tr")])
+        producers.append((pt, f"Select(ds, lambda {e}: First(Select({e}.jets, lambda {j5}: {src})))"))
+
     for pt, psrc in producers:
         for style in ((0, 1) if _has_dict(pt) else (0,)):
             t = nm.fresh("t")
